@@ -172,7 +172,87 @@ def canonicalise_fns(crate):
         crate.by_key.setdefault(b.key, []).append(b)
 
 
+# Types the rule tables name by full path.  Moving a type into another (sub)module of the same crate is behaviour-preserving:
+# when the documented path is absent and exactly one type of the crate has the same name, its path is rewritten to the
+# documented one in every fact (types, def paths of its methods, aggregates).
+CANON_ADTS = (
+    "desert_core::state::State", "desert_core::adt::AdtMetadata", "desert_core::deserializer::ResolvedInputRegion",
+    "desert_core::deserializer::InputRegion", "desert_core::error::Error", "desert_core::deserializer::DeserializerIterator",
+    "desert_core::deserializer::DeserializationContext", "desert_core::serializer::SerializationContext",
+    "desert_core::adt::serializer::AdtSerializer", "desert_core::adt::deserializer::AdtDeserializer",
+    "desert_core::binary_input::SliceInput", "desert_core::binary_input::OwnedInput",
+    "desert_core::binary_output::SizeCalculator", "desert_core::adt::FieldPosition", "desert_core::StringId", "desert_core::RefId",
+)
+
+
+def discover_moves(crate):
+    have = {a["path"] for a in crate.items["adts"]}
+    out = {}
+    for want in CANON_ADTS:
+        if want in have or not want.startswith(crate.name + "::"):
+            continue
+        name = want.rsplit("::", 1)[-1]
+        cands = [p for p in have if p.rsplit("::", 1)[-1] == name and p.startswith(crate.name + "::")]
+        if len(cands) == 1:
+            out[cands[0]] = want
+    return out
+
+
+def _replace_all(obj, rx, m):
+    if isinstance(obj, dict):
+        for k, v in obj.items():
+            if isinstance(v, str):
+                if "::" in v:
+                    nv = rx.sub(lambda mo: m[mo.group(0)], v)
+                    if nv != v:
+                        obj[k] = nv
+            elif isinstance(v, (dict, list)):
+                _replace_all(v, rx, m)
+    elif isinstance(obj, list):
+        for i, v in enumerate(obj):
+            if isinstance(v, str):
+                if "::" in v:
+                    nv = rx.sub(lambda mo: m[mo.group(0)], v)
+                    if nv != v:
+                        obj[i] = nv
+            elif isinstance(v, (dict, list)):
+                _replace_all(v, rx, m)
+
+
+def canonicalise_moves(crate):
+    mv = discover_moves(crate)
+    crate.adt_moves = mv
+    if not mv:
+        return
+    rx = re.compile("(?<![A-Za-z0-9_:])(?:%s)(?![A-Za-z0-9_])" % "|".join(re.escape(k) for k in sorted(mv, key=len, reverse=True)))
+    for b in crate.bodies.values():
+        _replace_all(b.raw, rx, mv)
+    _replace_all(crate.items, rx, mv)
+    _rebuild(crate)
+
+
+def _rebuild(crate):
+    from .facts import body_key
+    bodies = {}
+    for b in crate.bodies.values():
+        b.defn = b.raw["def"]
+        b.root = b.raw["root"]
+        b.impl = b.raw["impl"]
+        b.in_trait = b.raw["in_trait"]
+        b.key = body_key(b.raw)
+        bodies[b.defn] = b
+    crate.bodies = bodies
+    for b in bodies.values():
+        root = b.raw.get("root")
+        if root and root != b.defn and root in bodies and b.defn.startswith(root):
+            b.key = bodies[root].key + b.defn[len(root):]
+    crate.by_key = {}
+    for b in bodies.values():
+        crate.by_key.setdefault(b.key, []).append(b)
+
+
 def canonicalise(crate):
+    canonicalise_moves(crate)
     canonicalise_fns(crate)
     ren = discover(crate)
     crate.field_renames = ren
